@@ -181,12 +181,21 @@ func callLed(p *parser, t *token, left *token) *token {
 	return call
 }
 
+// simpleStatement applies the statement rule to the init / post clause of an if or for:
+// a bare call there requests no results.
+func simpleStatement(tok *token) *token {
+	if tok != nil && tok.Symbol == "call" {
+		tok.Tokens[2].Text = "0"
+	}
+	return tok
+}
+
 func ifNud(p *parser, t *token) *token {
 	top := t
 	for {
 		first := p.Expression(0, "{")
 		if p.Token.Symbol == ";" {
-			t.Append(first)
+			t.Append(simpleStatement(first))
 			p.Advance(";")
 			t.Append(p.Expression(0, "{"))
 		} else {
@@ -248,11 +257,11 @@ func forNud(p *parser, t *token) *token {
 		return t
 	}
 
-	t.Append(first)
+	t.Append(simpleStatement(first))
 	p.Advance(";")
 	t.Append(p.Expression(0, "{"))
 	p.Advance(";")
-	t.Append(p.Expression(0, "{"))
+	t.Append(simpleStatement(p.Expression(0, "{")))
 	t.Append(p.Block("block", "{", "}"))
 	return t
 }
